@@ -172,6 +172,10 @@ func (w *C16) Run(t *rt.Tape, trace bool, seed uint64) *core.Result {
 	if w.Tier == "thorough" {
 		co = gen.CircuitOpts{MaxGates: 150, MaxIn: 24, MaxOutW: 12}
 	}
+	if t.Choose(rt.SGen, 5) == 0 {
+		co.MaxOutW = 200 // results of several machine words: whatever is done per word or per chunk of result bits happens more than once
+		res.Reach["circuit.wide-outputs"]++
+	}
 	circ := gen.Circuit(t, co)
 	in := gen.Inputs(t, circ)
 	kind := []int{OTCO, OTCO, OTCO, OTCOT, OTCOTMal, OTRSA1024, OTCO, OTCOT}[t.Choose(rt.SGen, 8)]
